@@ -87,6 +87,10 @@ constexpr std::size_t kLengthFieldSize = sizeof(std::uint32_t);
 constexpr std::size_t kMaxPayloadSize = 1 * 1024 * 1024;  // 1 MiB
 constexpr std::size_t kMaxHandshakePayload = 2048;
 constexpr std::chrono::milliseconds kHandshakeTimeout{2000};
+// A peer that stops draining its socket must not hold a sender (and whatever the sender has locked) for ever:
+// a send that makes no progress for this long, or a frame slower than the floor rate, ends the session.
+constexpr std::chrono::milliseconds kSendStallTimeout{5000};
+constexpr std::size_t kSendFloorBytesPerSecond = 16 * 1024;
 
 std::array<std::uint8_t, kPeerIdSize> peer_id_bytes(const ephemeralnet::PeerId& peer_id) {
     std::array<std::uint8_t, kPeerIdSize> bytes{};
@@ -391,7 +395,23 @@ bool SessionManager::send(const PeerId& peer_id, std::span<const std::uint8_t> p
     // One frame at a time per session: a blocking send that waits for buffer space lets
     // another thread's send on the same socket slip in, which would interleave two frames.
     std::scoped_lock write_lock(session->write_mutex);
-    return send_all(session->socket, buffer.data(), buffer.size());
+    set_send_timeout(session->socket, kSendStallTimeout);
+    const auto deadline = std::chrono::steady_clock::now() + kSendStallTimeout +
+                          std::chrono::seconds(buffer.size() / kSendFloorBytesPerSecond);
+    if (send_all(session->socket, buffer.data(), buffer.size(), deadline)) {
+        return true;
+    }
+    // Part of a frame may be on the wire: the stream cannot carry another one. End the session;
+    // its receive loop sees the shutdown and cleans up.
+    session->running.store(false);
+    if (!session->socket_closed.load()) {
+#ifdef _WIN32
+        ::shutdown(to_native(session->socket), SD_BOTH);
+#else
+        ::shutdown(to_native(session->socket), SHUT_RDWR);
+#endif
+    }
+    return false;
 }
 
 bool SessionManager::adopt_outbound_socket(const PeerId& peer_id, SocketHandle socket, bool identity_sent) {
@@ -1059,10 +1079,14 @@ std::string SessionManager::peer_key_string(const PeerId& peer_id) {
     return peer_id_to_string(peer_id);
 }
 
-bool SessionManager::send_all(SocketHandle handle, const std::uint8_t* data, std::size_t length) {
+bool SessionManager::send_all(SocketHandle handle, const std::uint8_t* data, std::size_t length,
+                              std::optional<std::chrono::steady_clock::time_point> deadline) {
     auto socket = to_native(handle);
     std::size_t sent_total = 0;
     while (sent_total < length) {
+        if (deadline && std::chrono::steady_clock::now() >= *deadline) {
+            return false;
+        }
 #ifdef _WIN32
         const auto sent = ::send(socket, reinterpret_cast<const char*>(data + sent_total), static_cast<int>(length - sent_total), 0);
 #else
@@ -1126,6 +1150,19 @@ bool SessionManager::set_recv_timeout(SocketHandle handle, std::chrono::millisec
     }
 #endif
     return true;
+}
+
+bool SessionManager::set_send_timeout(SocketHandle handle, std::chrono::milliseconds timeout) {
+    auto socket = to_native(handle);
+#ifdef _WIN32
+    DWORD value = static_cast<DWORD>(timeout.count());
+    return ::setsockopt(socket, SOL_SOCKET, SO_SNDTIMEO, reinterpret_cast<const char*>(&value), sizeof(value)) == 0;
+#else
+    timeval tv{};
+    tv.tv_sec = static_cast<time_t>(timeout.count() / 1000);
+    tv.tv_usec = static_cast<suseconds_t>((timeout.count() % 1000) * 1000);
+    return ::setsockopt(socket, SOL_SOCKET, SO_SNDTIMEO, reinterpret_cast<const char*>(&tv), sizeof(tv)) == 0;
+#endif
 }
 
 void SessionManager::close_socket(SocketHandle handle) {
